@@ -293,9 +293,20 @@ def campaign_model(ck: Check, n: int, parts: tuple = ("valid", "tr", "acc"), for
 
 
 # ============================================================ (d) the property oracle
+def big_exclusive_bound(doc: dict) -> bool:
+    """an exclusive bound that is an integer beyond 2**53 (JsonSchemaObject types exclusive bounds as float)"""
+
+    def p(s: dict) -> bool:
+        return any(isinstance(s.get(k), int) and not isinstance(s.get(k), bool) and abs(s[k]) > 2**53 for k in ("exclusiveMinimum", "exclusiveMaximum"))
+
+    return doc_has(doc, p)
+
+
 def causes_for(doc: dict, inst: Any, style: str, oracle: str = "valid_rejected") -> str:
     if oracle == "dump_mismatch" and style == "v1" and union_str_before_number(doc):
         return "v1_union_left_to_right"
+    if big_exclusive_bound(doc):
+        return "big_exclusive_bound_through_float"
     if style == "v1" and semgen.has_discriminator(doc) and semgen.disc_const_tag(doc):
         return "v1_const_tag_member"
     if style == "v1" and semgen.allof_required_const(doc):
@@ -325,16 +336,22 @@ def oracle_doc(ck: Check, camp, doc: dict, target: tuple, insts: list | None = N
     """target = ("v1"|"v2", routing), ("v1"|"v2", routing, "openapi") (the same document sent as an
     OpenAPI specification) or (kind,) for dataclass / TypedDict"""
     ift = "jsonschema"
+    optname = ""
     if len(target) >= 2:
         style, routing = target[0], target[1]
         kind = semrun.STYLE_MODEL[style]
         opts = semrun.ROUTING_OPTS[routing]
-        if len(target) == 3:
+        if len(target) >= 3:
             ift = target[2]
+        if len(target) == 4:
+            # a default-off option that must not change what the models accept (C14 compares it with the
+            # baseline; here the valid instances go through the models generated WITH it)
+            optname = target[3]
+            opts = {**opts, **OPTION_SETS[optname]}
     else:
         kind = target[0]
         style, routing, opts = "v2", "contype", {}
-    label = (f"{style}/{routing}" + ("" if ift == "jsonschema" else f"/{ift}")) if len(target) >= 2 else kind
+    label = (f"{style}/{routing}" + ("" if ift == "jsonschema" else f"/{ift}") + (f"+{optname}" if optname else "")) if len(target) >= 2 else kind
     base = {"target": label, "style": style if len(target) >= 2 else kind, "routing": routing}
     inp = {"doc": doc, "target": list(target)}
     b = semrun.build(doc, style, opts, kind=kind, input_file_type=ift)
@@ -376,7 +393,7 @@ def oracle_doc(ck: Check, camp, doc: dict, target: tuple, insts: list | None = N
             if semgen.canon(d) != semgen.canon(inst):
                 c1 = causes_for(doc, inst, style, "dump_mismatch")
                 und = semgen.undeclared_members(doc, semlean.body_of(doc), inst)
-                if c1 == "none" and und:
+                if und and c1 in ("none", "nonintegral_bound_on_integer", "comma_in_pattern_in_union"):
                     # a member the (open) schema does not declare — e.g. the tag of a discriminated alternative
                     ck.fail({**base, "oracle": "dump_mismatch", "mechanism": "undeclared_member_dropped", "cause": f"undeclared_member_ap_{sorted(und)[0]}"}, {**inp, "instance": inst}, f"undeclared member lost on dump: {semgen.canon(d)[:300]} vs instance {semgen.canon(inst)[:300]}")
                 else:
@@ -401,6 +418,12 @@ def oracle_doc(ck: Check, camp, doc: dict, target: tuple, insts: list | None = N
 
 
 TARGETS = [("v1", "contype"), ("v1", "field"), ("v2", "contype"), ("v2", "field"), ("v2", "annotated")]
+OPTION_SETS = {
+    "reuse_model": {"reuse_model": True},
+    "collapse_root_models": {"collapse_root_models": True},
+    "reuse+collapse": {"reuse_model": True, "collapse_root_models": True},
+}
+OPTION_TARGETS = [("v2", "contype", "jsonschema", "reuse_model"), ("v1", "contype", "jsonschema", "reuse_model"), ("v2", "field", "jsonschema", "collapse_root_models"), ("v2", "contype", "jsonschema", "reuse+collapse")]
 
 
 def focused_docs() -> list[tuple[str, dict]]:
@@ -559,6 +582,8 @@ def campaign_focused(ck: Check) -> None:
             ck.infra_errors.append(f"focused document {label} has no valid instance")
         for t in TARGETS:
             oracle_doc(ck, camp, doc, t, insts)
+        for t in OPTION_TARGETS[:2]:
+            oracle_doc(ck, camp, doc, t, insts)
         if label.startswith("discriminator"):
             for t in (("v2", "contype", "openapi"), ("v1", "contype", "openapi")):
                 oracle_doc(ck, camp, doc, t, insts)
@@ -582,6 +607,8 @@ def campaign_random(ck: Check, n: int) -> None:
             oracle_doc(ck, camp, doc, t, insts)
         if "discriminator" in feats and i % 4 == 3:
             oracle_doc(ck, camp, doc, ("v2", "contype", "openapi"), insts)
+        if feats & {"twins", "tagged_records", "name_clash", "scalar_def", "root_model"} or i % 5 == 2:
+            oracle_doc(ck, camp, doc, OPTION_TARGETS[i % len(OPTION_TARGETS)], insts)
         if i % 2 == 0:
             cfg2 = gen_cfg(i)
             cfg2.alias_names = False
